@@ -11,7 +11,7 @@ Subsets(kind) == Singles(Opt(kind)) \cup { {}, Opt(kind) } \cup Strided(kind) \c
 SubsetCases ==
   { [kind |-> "global", fields |-> SetToSeq(s), outkind |-> "explicit", nin |-> n[1], nout |-> n[2]] : s \in Subsets("global"), n \in {<<1, 1>>, <<0, 0>>, <<3, 2>>} }
   \cup { [kind |-> "input", fields |-> SetToSeq(s), outkind |-> "explicit", nin |-> 2, nout |-> 1] : s \in Subsets("input") }
-  \cup { [kind |-> "output", fields |-> SetToSeq(s), outkind |-> k, nin |-> 1, nout |-> 2] : s \in Subsets("output"), k \in {"explicit", "commit", "marked", "blinded"} }
+  \cup { [kind |-> "output", fields |-> SetToSeq(s), outkind |-> k, nin |-> 1, nout |-> 2] : s \in Subsets("output"), k \in {"explicit", "commit", "mixed-a", "mixed-v", "marked", "blinded"} }   \* mixed-a: explicit amount, committed asset; mixed-v: the reverse
 
 \* fully populated bases; instance counts of keyed fields as the harness's setters produce them
 Inst(kind, f) == IF ~IsKeyed(kind, f) THEN {0} ELSE IF f \in {"scalars", "proprietary"} /\ kind # "output" THEN {1, 2} ELSE {1}
